@@ -8,7 +8,7 @@ import os
 import re
 import shutil
 
-from .common import CACHE, CheckError, hash_files, nightly_sysroot, repo_hash, sh, walk_files
+from .common import CACHE, CheckError, aux_hash, hash_files, nightly_sysroot, repo_hash, sh, walk_files
 
 EXPDIR = os.path.join(CACHE, "expanded")
 TARGET = os.path.join(CACHE, "target-expand")
@@ -19,7 +19,7 @@ def expand(crate_dir, crate_name, features=(), cfgs=(), allow_errors=True):
     os.makedirs(EXPDIR, exist_ok=True)
     h = hashlib.sha256()
     files = [p for p in walk_files(crate_dir) if "/target/" not in p]
-    for part in (repo_hash(), hash_files(files), ",".join(features), " ".join(cfgs), crate_name):
+    for part in (repo_hash(), aux_hash(), hash_files(files), ",".join(features), " ".join(cfgs), crate_name):
         h.update(part.encode())
         h.update(b"|")
     key = h.hexdigest()[:32]
